@@ -1518,11 +1518,19 @@ func (c *clusterClient) Close() {
 		close(c.stopCh)
 	}
 
+	// Close the connections concurrently, but do not return before they are closed: a retry that was decided before
+	// Close must not be sent, and new calls must not be served, once Close has returned.
+	var wg sync.WaitGroup
 	c.mu.RLock()
+	wg.Add(len(c.conns))
 	for _, cc := range c.conns {
-		go cc.conn.Close()
+		go func(cc conn) {
+			cc.Close()
+			wg.Done()
+		}(cc.conn)
 	}
 	c.mu.RUnlock()
+	wg.Wait()
 }
 
 func (c *clusterClient) shouldRefreshRetry(err error, ctx context.Context) (addr string, mode RedirectMode) {
